@@ -59,6 +59,7 @@ class FastEngine(Engine):
             except Exception: v = None
             if isinstance(v, Sc) or v is UNIT: return lambda fr: v
             return lambda fr: self.const(fr, c)
+        if re.match(r"^[<\w]", s): return lambda fr: FnPtr(s)
         raise ValueError("operand? " + s)
 
     def c_rvalue(self, fn, s):
@@ -185,12 +186,14 @@ class FastEngine(Engine):
             if m: f = self.fns.get(f"{m.group(2).split('::')[-1]}::{m.group(4)}")
         if f is not None: return lambda args: self.run_fn(f, args)
         n, g = strip_turbofish(name)
-        for rx, fn in MODELS:
-            mm = rx.match(n)
-            if mm: return lambda args, fn=fn, mm=mm, g=g: fn(self, mm, g, args)
-        def un(args):
-            self.unmodelled.add(n); raise Unmodelled(n)
-        return un
+        ms = find_models(n)
+        if len(ms) == 1:
+            fn, mm = ms[0]
+            def one(args):
+                try: return fn(self, mm, g, args)
+                except Pass: self.unmodelled.add(n); raise Unmodelled(n)
+            return one
+        return lambda args: dispatch_models(self, n, g, args)
 
     def call(self, name, gens, args):
         m = re.match(r"^<(Self|[A-Z]) as (.+)>::(\w+)$", name)
